@@ -122,239 +122,6 @@ func prefixOfD(info *types.Info, e ast.Expr, line types.Object, pp *PrePass, dep
 	return false, "unsupported expression " + types.ExprString(e)
 }
 
-// PrePassShape (R9.1): ParseDSL's cleaning loop keeps line structure and prefixes.
-func PrePassShape(p *load.Prog, r *oblig.Report, rule string) *PrePass {
-	fd, pk := p.FuncDecl("transformer", "ParseDSL")
-	if fd == nil {
-		r.Unknown(rule, "anchor:ParseDSL", "-", "ParseDSL not found")
-		return nil
-	}
-	info := pk.TypesInfo
-	pp := &PrePass{}
-	pos := func(n ast.Node) string { return p.Pos(n.Pos()) }
-	var loop *ast.RangeStmt
-	ast.Inspect(fd.Body, func(n ast.Node) bool {
-		if rs, ok := n.(*ast.RangeStmt); ok && loop == nil {
-			if call, ok := rs.X.(*ast.CallExpr); ok && calleeName(info, call) == "strings.Split" {
-				loop = rs
-			}
-		}
-		return true
-	})
-	if loop == nil {
-		r.Unknown(rule, "prepass:line-loop", pos(fd), "no `for … range strings.Split(data, sep)` loop found in ParseDSL")
-		return nil
-	}
-	split := loop.X.(*ast.CallExpr)
-	sep, _ := constString(info, split.Args[1])
-	pp.LineSeparator = sep
-	param := info.Defs[fd.Type.Params.List[0].Names[0]]
-	if id, ok := ast.Unparen(split.Args[0]).(*ast.Ident); !ok || info.Uses[id] != param || sep != "\n" {
-		r.Bad(rule, "prepass:split", pos(split), "the input is not split as strings.Split(<parameter>, \"\\n\"): line numbers of the cleaned text would not be those of the input")
-	} else {
-		r.OK(rule, "prepass:split", pos(split), "syntax", "strings.Split(data, \"\\n\")")
-	}
-	lineVar, _ := loop.Value.(*ast.Ident)
-	if lineVar == nil {
-		r.Unknown(rule, "prepass:line-variable", pos(loop), "the loop has no value variable")
-		return pp
-	}
-	lineObj := info.Defs[lineVar]
-	// every assignment to the cleaned-line variable(s) and every append
-	var listObj types.Object
-	appends := 0
-	okPrefix := true
-	cleaned := map[types.Object]bool{}
-	nonEmpty, untrimmed := 0, ""
-	// first pass: find the append and the variable appended
-	ast.Inspect(loop.Body, func(n ast.Node) bool {
-		as, ok := n.(*ast.AssignStmt)
-		if !ok || len(as.Lhs) != 1 || len(as.Rhs) != 1 {
-			return true
-		}
-		if call, ok := as.Rhs[0].(*ast.CallExpr); ok && calleeName(info, call) == "append" && len(call.Args) == 2 {
-			if lid, ok := as.Lhs[0].(*ast.Ident); ok {
-				listObj = info.Uses[lid]
-				appends++
-				if vid, ok := ast.Unparen(call.Args[1]).(*ast.Ident); ok {
-					cleaned[info.Uses[vid]] = true
-				} else if ok, why := prefixOf(info, call.Args[1], lineObj, pp); !ok {
-					okPrefix = false
-					r.Bad(rule, "prepass:prefix", pos(call), "the cleaned line is not a prefix of the input line: "+why)
-				}
-			}
-		}
-		return true
-	})
-	ast.Inspect(loop.Body, func(n ast.Node) bool {
-		switch s := n.(type) {
-		case *ast.AssignStmt:
-			for i, lhs := range s.Lhs {
-				lid, ok := lhs.(*ast.Ident)
-				if !ok || i >= len(s.Rhs) {
-					continue
-				}
-				obj := info.Defs[lid]
-				if obj == nil {
-					obj = info.Uses[lid]
-				}
-				if obj == lineObj {
-					// the line is rewritten before it is cleaned: the rewrite itself must keep prefixes (and columns)
-					if ok, why := prefixOf(info, s.Rhs[i], lineObj, &PrePass{}); !ok {
-						okPrefix = false
-						r.Bad(rule, "prepass:prefix", pos(s), "the input line is rewritten before cleaning and the result is not a prefix of the input line (columns shift): "+why)
-					}
-					continue
-				}
-				if !cleaned[obj] {
-					continue
-				}
-				if ok, why := prefixOf(info, s.Rhs[i], lineObj, pp); !ok {
-					okPrefix = false
-					r.Bad(rule, "prepass:prefix", pos(s), "the cleaned line is not a prefix of the input line: "+why)
-				}
-				if cs, isConst := constString(info, s.Rhs[i]); !(isConst && cs == "") {
-					nonEmpty++
-					if t := outermostTrim(info, s.Rhs[i]); !strings.Contains(t, " ") {
-						untrimmed = pos(s)
-					}
-				}
-			}
-		case *ast.RangeStmt, *ast.ForStmt:
-			if n != ast.Node(loop) {
-				okPrefix = false
-				r.Unknown(rule, "prepass:prefix", pos(n), "nested loop in the cleaning loop")
-			}
-		}
-		return true
-	})
-	if okPrefix {
-		r.OK(rule, "prepass:prefix", pos(loop), "prefix-preserving-table", fmt.Sprintf("each cleaned line is \"\" or a prefix of its input line (comment cut at first %q, trailing cut sets %q)", pp.CommentCut, pp.TrimCutSets))
-	}
-	// the last operation on every non-empty cleaned line is the trailing trim
-	switch {
-	case nonEmpty == 0:
-		r.Unknown(rule, "prepass:trim-outermost", pos(loop), "no non-empty assignment to the cleaned line found")
-	case untrimmed != "":
-		r.Bad(rule, "prepass:trim-outermost", untrimmed, "the trailing-blank trim is not the last operation on the cleaned line: after the comment cut the line can end in a blank (or a carriage return), which the grammar does not accept at the end of input and which re-enables the cubic NEWLINE recursion")
-	default:
-		r.OK(rule, "prepass:trim-outermost", pos(loop), "syntax", fmt.Sprintf("every non-empty cleaned line is strings.TrimRight(…, cut set ∋ ' ') as its last operation (cut sets %q)", pp.TrimCutSets))
-	}
-	// exactly one append per iteration: the append is a direct statement of the loop body, not nested in a branch
-	direct := 0
-	for _, st := range loop.Body.List {
-		if as, ok := st.(*ast.AssignStmt); ok && len(as.Rhs) == 1 {
-			if call, ok := as.Rhs[0].(*ast.CallExpr); ok && calleeName(info, call) == "append" {
-				direct++
-			}
-		}
-	}
-	hasExit := false
-	ast.Inspect(loop.Body, func(n ast.Node) bool {
-		switch s := n.(type) {
-		case *ast.BranchStmt:
-			if s.Tok == token.CONTINUE || s.Tok == token.GOTO || (s.Tok == token.BREAK && !inSwitch(loop.Body, s)) {
-				hasExit = true
-			}
-		case *ast.ReturnStmt:
-			hasExit = true
-		}
-		return true
-	})
-	if appends == 1 && direct == 1 && !hasExit {
-		r.OK(rule, "prepass:one-line-out-per-line-in", pos(loop), "syntax", "one unconditional append per iteration, no continue/break/return")
-	} else {
-		r.Bad(rule, "prepass:one-line-out-per-line-in", pos(loop), fmt.Sprintf("the loop does not append exactly one cleaned line per input line (%d appends, %d unconditional, early exits: %v): line numbers shift", appends, direct, hasExit))
-	}
-	// what happens to the list afterwards: Join with "\n", then only TrimRight(·,"\n"), then NewInputStream
-	okJoin := false
-	ast.Inspect(fd.Body, func(n ast.Node) bool {
-		call, ok := n.(*ast.CallExpr)
-		if !ok || !strings.HasSuffix(calleeName(info, call), "antlr/v4.NewInputStream") {
-			return true
-		}
-		arg := ast.Unparen(call.Args[0])
-		// resolve a local variable to its single definition
-		if id, ok := arg.(*ast.Ident); ok {
-			obj := info.Uses[id]
-			ast.Inspect(fd.Body, func(m ast.Node) bool {
-				if as, ok := m.(*ast.AssignStmt); ok && len(as.Lhs) == 1 && len(as.Rhs) == 1 {
-					if lid, ok := as.Lhs[0].(*ast.Ident); ok && (info.Defs[lid] == obj) {
-						arg = ast.Unparen(as.Rhs[0])
-					}
-				}
-				return true
-			})
-		}
-		why := ""
-		for {
-			c, ok := arg.(*ast.CallExpr)
-			if !ok {
-				why = "the lexer input is not built by strings.Join from the cleaned lines"
-				break
-			}
-			name := calleeName(info, c)
-			if name == "strings.TrimRight" {
-				cs, _ := constString(info, c.Args[1])
-				if cs != "\n" {
-					why = fmt.Sprintf("TrimRight with cut set %q after joining", cs)
-					break
-				}
-				pp.FinalTrimSet = cs
-				arg = ast.Unparen(c.Args[0])
-				continue
-			}
-			if name == "strings.Join" {
-				js, _ := constString(info, c.Args[1])
-				lid, isID := ast.Unparen(c.Args[0]).(*ast.Ident)
-				if js == "\n" && isID && info.Uses[lid] == listObj {
-					okJoin = true
-				} else {
-					why = "the cleaned lines are not joined with \"\\n\""
-				}
-				break
-			}
-			why = "after joining, " + name + " is applied: only strings.TrimRight(·, \"\\n\") keeps every line at its original line number (leading lines must not be dropped)"
-			break
-		}
-		if okJoin {
-			r.OK(rule, "prepass:join", pos(call), "syntax", "NewInputStream(TrimRight(Join(cleanedLines, \"\\n\"), \"\\n\"))")
-		} else {
-			r.Bad(rule, "prepass:join", pos(call), why)
-		}
-		return true
-	})
-	if !okJoin && !hasRec(r, rule, "prepass:join") {
-		r.Unknown(rule, "prepass:join", pos(fd), "no antlr.NewInputStream call found")
-	}
-	// the full-line comment rule: a line is blanked iff its first non-space byte is '#'
-	blank := false
-	ast.Inspect(loop.Body, func(n ast.Node) bool {
-		be, ok := n.(*ast.BinaryExpr)
-		if !ok || be.Op != token.EQL {
-			return true
-		}
-		if s, ok := constString(info, be.Y); ok && s == "#" {
-			x := types.ExprString(be.X)
-			if strings.Contains(x, "TrimLeft("+lineVar.Name) && (strings.Contains(x, "[0:1]") || strings.Contains(x, "[:1]")) {
-				blank = true
-			}
-		}
-		return true
-	})
-	if blank {
-		r.OK(rule, "prepass:full-line-comment", pos(loop), "syntax", "a line is blanked iff its first non-space byte is '#'")
-	} else {
-		r.Bad(rule, "prepass:full-line-comment", pos(loop), "the test `strings.TrimLeft(line, \" \")[0:1] == \"#\"` that recognises full-line comments was not found")
-	}
-	if pp.CommentCut != " #" {
-		r.Bad(rule, "prepass:inline-comment-cut", pos(loop), fmt.Sprintf("the inline comment is cut at %q, the DSL comment marker is \" #\"", pp.CommentCut))
-	} else {
-		r.OK(rule, "prepass:inline-comment-cut", pos(loop), "syntax", "cut at the first \" #\"")
-	}
-	return pp
-}
-
 func inSwitch(root ast.Node, target ast.Node) bool {
 	found := false
 	ast.Inspect(root, func(n ast.Node) bool {
